@@ -138,7 +138,7 @@ func (c *Ctx) resolveAnchors() {
 				if fn.Parent() != nil || fn.Object() == nil || fn.Object().Exported() || c.relPkg(fn) != sp.Pkg || recvName(fn) != sp.Recv {
 					continue
 				}
-				if inlineAnchors[fn.Name()] || strings.HasPrefix(fn.Name(), "init") || c.aliasTarget[fn] != "" {
+				if inlineAnchors[fn.Name()] || isPkgInitName(fn.Name()) || c.aliasTarget[fn] != "" {
 					continue
 				}
 				if sigString(fn) != sp.Sig {
